@@ -20,7 +20,7 @@ func famRegs3(r *rng) []string {
 	for i := range ps {
 		ps[i] = fmt.Sprintf("p%d", i)
 		if r.intn(6) == 0 {
-			args[i] = pickS(r, `"s"`, "1.5", "[1,2]", "nil", "true")
+			args[i] = pickS(r, `"s"`, "1.5", "[1,2]", "nil", "false") // not true: `for j = true` never ends and the deadline cuts configurations at different points
 		} else {
 			args[i] = itoa(r.intn(6))
 		}
@@ -98,7 +98,7 @@ func famRegs3(r *rng) []string {
 		}
 		return l
 	}(), "; ") + "\n" + top
-	res = append(res, top, "println(acc, m9, xs9)")
+	res = append(res, top, "println(acc, m9, xs9)", "println(sv(catch(i)), sv(catch(j)), sv(catch(k)), sv(catch(l)))")
 	// recursion from inside loops, condition loops over a mutated parameter, short lambdas
 	res = append(res, pickS(r,
 		fmt.Sprintf("func rc(n){ s = 1; for i = n { s = s + rc(i) }; s }; println(rc(%d), rc(%d))", 2+r.intn(5), 1+r.intn(3)),
@@ -148,6 +148,15 @@ var opShapes = []string{
 	"rest(%L) + rest(%R)", "print(%L, %R)", "println(%L)", "error(%L, %R)", "catch(%L)", "catch(%L).value + %R", "del(%L)", "func(a){a}(%L, %R)", "func(a, ..){[a, ..]}(%L, %R)",
 	"func(){return %L}() == %R", "x9 = y9 = %L", "(x => x)(%L)(%R)", "%L.k", "%L.%R", "{%L: 1}[%R]", "[%L][%R]", "min(%L, %R)", "%L * %R * %L", "%L + %R + %L", "%L = %R", "%L := %R",
 	"for x9 = [%L, %R] {x9}", "str9 = \"\" + %L", "%L && %R || %L", "unquote(%L)", "quote(%L) == quote(%R)",
+	// a container stored inside itself (fatal stack overflow before repo fixes bfb86e4 / 534d791)
+	"v9 = %L; v9[0] = v9; v9 == v9", "v9 = %L; v9[v9] = %R; v9", "v9 = %L; v9.k = v9; v9", "v9 = %L; w9 = [v9]; v9[-1] = w9; v9 == w9",
+	"v9 = %L; v9 = v9 + %R; p9 = v9 + 1; q9 = v9 + [p9]; [q9 == p9, q9]", "v9 = %L; v9[%R] = [v9, {1: v9}]; v9",
+}
+
+// shapes that write into the left operand: it is always a fresh literal (a global of the session reached by
+// reference would be written in place when large - the open C06 classes - and change the following inputs)
+func opShapeMutates(t string) bool {
+	return strings.Contains(t, "v9[") || strings.Contains(t, "v9.") || strings.Contains(t, "v9++") || strings.Contains(t, "--v9") || strings.Contains(t, "v9 +")
 }
 
 func famOpKinds(r *rng) []string {
@@ -165,7 +174,12 @@ func famOpKinds(r *rng) []string {
 		binds = append(binds, fmt.Sprintf("k%d = %s", i, k))
 	}
 	res = append(res, strings.Join(binds, "\n"))
-	sub := func(l, rr string) string { return strings.ReplaceAll(strings.ReplaceAll(tmpl, "%L", l), "%R", rr) }
+	sub := func(l, rr string) string {
+		if opShapeMutates(tmpl) {
+			l = "(" + opKinds[li] + ")"
+		}
+		return strings.ReplaceAll(strings.ReplaceAll(tmpl, "%L", l), "%R", rr)
+	}
 	form := r.intn(3)
 	for ri := range opKinds {
 		switch form {
